@@ -23,6 +23,7 @@ META = {
     "level_text": "Core fragment (Text/RoundTrip.v: structs/enums with flags, traits with flags, positive/negative/upstream impls, quantified where-clauses of the three kinds without associated types, types: parameters, ADT applications, scalars, tuples, references, raw pointers, slices, str, never): machine-checked that parse (print p) = Some p and that printing the reparsed program reproduces the text, for all well-formed lowered programs (parse_print_partial, print_idempotent_partial; axiom-free). All item kinds/features the property lists (variances, reprs, lang attributes, associated types/values, equality bounds, const/int/float parameters, arrays, fn pointers, dyn, opaque types, fn definitions): differential test of the real write -> parse -> lower -> compare -> write cycle on a feature sweep, the pinned test programs and random combinations.",
     "level_note": "Partial by construction: outside the Coq fragment only the end-to-end test applies (a differential test, not a theorem); the LALRPOP grammar is not translated: the model parser is a hand-written recursive descent over tokens, tied to the real code per run by (a) token equality of the model printer with the real write_items, (b) equality of the real lowering of the source with the model program, (c) the real round trip itself.",
     "design_ref": "DESIGN.md §4 C22",
+    "bins": ["text"],
     "assumptions": [
         "programs are compared through a structural dump written for this check (harness/src/bin/text/roundtrip.rs): ids, kinds, flags, variances, reprs, types, where-clause/bound SETS; parameter, field and variant names are not part of the lowered program",
         "item kinds the writer does not handle (closures, coroutines, foreign types, custom clauses) are outside the property's quantifier and are not generated",
